@@ -105,6 +105,13 @@ def check_tab(cfg, system, ref, r, desc, rec):
             rec.fire("components_checked")
             if gotc.shape != wantc.shape or np.max(np.abs(gotc - wantc)) > 1e-12 * max(1.0, float(np.max(np.abs(wantc)))):
                 return ("component", f"get_component({c!r}) of '{q}' is not the corresponding operation on the stored tensor")
+            if c is not None and q != "Energy":
+                # the same through TABresult.get_data(quantity, iband, component): all bands, and a single band given as int
+                gd = np.asarray(tab.get_data(quantity=q, component=c)).reshape(wantc.shape)
+                g1 = np.asarray(tab.get_data(quantity=q, iband=0, component=c)).reshape(wantc[:, 0].shape)
+                if np.max(np.abs(gd - wantc)) > 1e-12 * max(1.0, float(np.max(np.abs(wantc)))) or \
+                        np.max(np.abs(g1 - wantc[:, 0])) > 1e-12 * max(1.0, float(np.max(np.abs(wantc)))):
+                    return ("component", f"get_data('{q}', component={c!r}) is not the corresponding operation on the stored tensor")
     return None
 
 
